@@ -89,14 +89,16 @@ let fnv (l : z list) : int =
 
 let body_of len seed = List.init len (fun i -> zbyte.(fill_byte seed i))
 
-(* num/m/szx/size/plen/phash *)
-let parse_blk tok =
+(* num/m/szx/size/plen/phash/etag *)
+let parse_blk_e tok =
   match String.split_on_char '/' tok with
-  | [n; m; s; sz; pl; ph] ->
-      (int_of_string n, int_of_string m, int_of_string s,
-       (if sz = "-" then None else Some (int_of_string sz)), int_of_string pl,
-       int_of_string ("0x" ^ ph))
+  | [n; m; s; sz; pl; ph; et] ->
+      ((int_of_string n, int_of_string m, int_of_string s,
+        (if sz = "-" then None else Some (int_of_string sz)), int_of_string pl,
+        int_of_string ("0x" ^ ph)),
+       (if et = "-" then None else Some (z_of_int (int_of_string et land 0x3fffffffffffffff))))
   | _ -> failwith ("bad block token " ^ tok)
+let parse_blk tok = fst (parse_blk_e tok)
 
 (* is the observed block message the slice the model cuts?  (Slices.v vs the sender code) *)
 let consistent body blen (n, m, s, sz, pl, ph) =
@@ -128,20 +130,24 @@ let blkrecv toks =
       let blen = int_of_string len in
       let body = body_of blen (int_of_string seed) in
       let junk _ = z_of_int (-1) in
-      let step =
-        if dir = "b1" then blk_srv_step junk (zi mx) else blk_cli_step junk in
-      let st = ref None in
+      (* b1: the reassembly core of the server; b2: the client's ETag check around its core *)
+      let st = ref None and cst = ref { cr_etag = None; cr_st = None } in
+      let step a etag =
+        if dir = "b1" then begin
+          let (st', o) = blk_srv_step junk (zi mx) !st a in st := st'; o
+        end else begin
+          let ((c', o), _) = blk_cli_recv junk !cst { rs_etag = etag; rs_arr = a } in cst := c'; o
+        end in
       let buf = Buffer.create 64 in
       List.iter (fun t ->
-          if t = "R" then st := None
+          if t = "R" then begin st := None; cst := { cr_etag = None; cr_st = None } end
           else begin
-            let (n, m, s, sz, pl, ph) = parse_blk t in
+            let ((n, m, s, sz, pl, ph), etag) = parse_blk_e t in
             if not (consistent body blen (n, m, s, sz, pl, ph)) then Buffer.add_string buf "X"
             else begin
               let size = match sz with None -> None | Some x -> Some (z_of_int x) in
               let a = blk_arr_of body (z_of_int s) size (z_of_int n) in
-              let (st', o) = step !st a in
-              st := st';
+              let o = step a etag in
               (match o with
                | BoDeliver d when d <> body -> Buffer.add_string buf "!"
                | _ -> Buffer.add_string buf (out_letter o))
